@@ -348,6 +348,53 @@ N("C20", "sorted-copy-in-eq", PG, "ConvexPolygon.__eq__", "        return hash(s
 N("C20", "solve-on-literal-local", G + "plane.py", "Plane.parametric", "s = solve([list(self.n) + [0]])", "m = [list(self.n) + [0]]\n    s = solve(m)")
 N("C20", "polygon-copy-elementwise", PG, "ConvexPolygon.__init__", "points = copy.deepcopy(pts)", "points = [copy.deepcopy(p) for p in pts]")
 
+# =========================================================================== C07
+F("C07", "polygon-forgets-center", PG, "ConvexPolygon.move", "        self.center_point = self._get_center_point()\n", "", rule="R7.1")
+F("C07", "polygon-forgets-plane", PG, "ConvexPolygon.move", "        self.plane = Plane(self.points[0], self.points[1], self.points[2])\n", "", rule="R7.1")
+F("C07", "polygon-plane-before-points", PG, "ConvexPolygon.move",
+  "        self.points = tuple(point_list)\n        self.plane = Plane(self.points[0], self.points[1], self.points[2])",
+  "        self.plane = Plane(self.points[0], self.points[1], self.points[2])\n        self.points = tuple(point_list)", rule="R7.1",
+  note="plane rebuilt from the stale vertex tuple")
+F("C07", "polygon-stale-reassign", PG, "ConvexPolygon.move", "        self.points = tuple(point_list)", "        self.points = tuple(self.points)", rule="R7.1")
+CAT["C07"].pop()  # Point.move mutates the shared Point objects in place, so the old tuple is moved too: behaviour-neutral
+F("C07", "point-axis-slip", G + "point.py", "Point.move", "        self.y += v[1]", "        self.y += v[0]", rule="R7.1")
+F("C07", "point-forgets-z", G + "point.py", "Point.move", "        self.z += v[2]\n", "", rule="R7.1")
+F("C07", "line-two-axes", G + "line.py", "Line.move", "        self.sv[2] += v[2]\n", "", rule="R7.1")
+F("C07", "line-axis-slip", G + "line.py", "Line.move", "        self.sv[1] += v[1]", "        self.sv[1] += v[2]", rule="R7.1")
+F("C07", "plane-no-move", G + "plane.py", "Plane.move", "        self.p.move(v)\n", "", rule="R7.1")
+F("C07", "segment-forgets-line", G + "segment.py", "Segment.move", "        self.line = Line(self.start_point, self.end_point)\n", "", rule="R7.1",
+  note="the original defect")
+F("C07", "segment-only-start", G + "segment.py", "Segment.move", "        self.end_point.move(v)\n", "", rule="R7.1")
+F("C07", "segment-line-before-move", G + "segment.py", "Segment.move",
+  "        self.start_point.move(v)\n        self.end_point.move(v)\n        self.line = Line(self.start_point, self.end_point)",
+  "        self.line = Line(self.start_point, self.end_point)\n        self.start_point.move(v)\n        self.end_point.move(v)", rule="R7.1")
+F("C07", "halfline-forgets-line", G + "halfline.py", "HalfLine.move", "        self.line = Line(self.point, self.vector)\n", "", rule="R7.1")
+F("C07", "segment-returns-half", G + "segment.py", "Segment.move", "return Segment(self.start_point, self.end_point)",
+  "return Segment(self.start_point, self.start_point)", rule="R7.2")
+F("C07", "polygon-returns-none", PG, "ConvexPolygon.move", "        return ConvexPolygon(self.points)", "        pass", rule="R7.2")
+F("C07", "line-returns-self-class-wrong", G + "line.py", "Line.move", "return Line(self.sv, self.dv)", "return self.sv", rule="R7.2")
+F("C07", "polyhedron-forgets-pyramids", PH, "ConvexPolyhedron.move", "            self.pyramid_set.add(Pyramid(convex_polygon, self.center_point, direct_call=False))\n", "", rule="R7.1")
+CAT["C07"].pop()  # pyramid_set is reset to an empty set: 'no pyramids' is caught by C06 accumulation, not by staleness
+F("C07", "polyhedron-keeps-old-pyramids", PH, "ConvexPolyhedron.move", "        self.pyramid_set = set()\n", "", rule="R7.1")
+F("C07", "polyhedron-forgets-center", PH, "ConvexPolyhedron.move", "        self.center_point = self._get_center_point()\n", "", rule="R7.1")
+F("C07", "polyhedron-center-before-points", PH, "ConvexPolyhedron.move",
+  "        self.point_set = set()\n        self.segment_set = set()\n        self.pyramid_set = set()\n",
+  "        self.center_point = self._get_center_point()\n        self.point_set = set()\n        self.segment_set = set()\n        self.pyramid_set = set()\n",
+  rule="R7.1")
+CAT["C07"].pop()  # the later assignment refreshes the centre again: neutral
+F("C07", "polyhedron-stale-segments", PH, "ConvexPolyhedron.move", "        self.segment_set = set()\n", "", rule="R7.1")
+F("C07", "move-accepts-anything", G + "halfline.py", "HalfLine.move", "    if isinstance(v, Vector):", "    if isinstance(v, Vector) or True:", rule="ANALYSIS-ERROR")
+CAT["C07"].pop()
+F("C07", "move-else-returns-self", G + "segment.py", "Segment.move", "        raise NotImplementedError('The second parameter for move function must be Vector')", "        return self", rule="R7.3")
+N("C07", "segment-move-order", G + "segment.py", "Segment.move", "        self.start_point.move(v)\n        self.end_point.move(v)", "        self.end_point.move(v)\n        self.start_point.move(v)")
+N("C07", "line-rebuild-sv", G + "line.py", "Line.move", "        self.sv[0] += v[0]\n        self.sv[1] += v[1]\n        self.sv[2] += v[2]", "        self.sv = self.sv + v")
+N("C07", "plane-reassign-point", G + "plane.py", "Plane.move", "        self.p.move(v)", "        self.p = Point(self.p.pv() + v)")
+N("C07", "polygon-listcomp", PG, "ConvexPolygon.move",
+  "        point_list = []\n        for point in self.points:\n            point_list.append(point.move(v))\n        self.points = tuple(point_list)",
+  "        self.points = tuple([point.move(v) for point in self.points])")
+N("C07", "halfline-line-from-point-vector", G + "halfline.py", "HalfLine.move", "self.line = Line(self.point, self.vector)", "self.line = Line(self.point, self.line.dv)")
+N("C07", "point-return-fresh", G + "point.py", "Point.move", "return Point(self.pv())", "return Point(self.x, self.y, self.z)")
+
 
 def catalogue(prop: str) -> List[Mutant]:
     return list(CAT.get(prop, []))
